@@ -85,6 +85,16 @@ def make_case(rng, kind, t, start=None, exhaustive=None):
          "partial": rng.choice([0, 0, 0, 1, 2, 3])}
     if typed:
         c["typed"] = typed
+    if exhaustive is None and rng.random() < 0.2:
+        # two interleaved iterators of one exporter (the model runs one undisturbed iteration); the first is mostly paused
+        # inside or right after its node statements, the second advanced into its own
+        nopt = len(c["options"] or [])
+        c["interleave"] = [rng.choice([1, 1 + nopt, 2 + nopt, 1 + nopt + len(sub) // 2, 1 + nopt + len(sub), 2 + nopt + len(sub),
+                                       rng.randrange(0, 2 * len(sub) + 3)]),
+                           rng.choice([2 + nopt, 3 + nopt, 1 + nopt + len(sub) // 2, rng.randrange(1, len(sub) + 3)])]
+        c["iterations"] = 1
+        c["partial"] = 0
+        c["tofile"] = False
     if c["iterations"] == 2 and rng.random() < 0.5:
         # the exporter's maxlevel attribute is changed between the iterations: the admitted set grows or shrinks,
         # identifiers handed out earlier stay valid and distinct
